@@ -530,6 +530,8 @@ def is_wrapper(name):
     if _WRAP_STRIPPED is None:
         _WRAP_STRIPPED = [strip_generics(w) for w in DERIVATION_WRAPPERS]
     sn = strip_generics(name)
+    if sn.startswith('yarel::value::Value::try_as_obj_') or sn == 'yarel::value::Value::try_as_number':
+        return True
     for w in _WRAP_STRIPPED:
         if sn == w or (w.startswith('::') and sn.endswith(w)):
             return True
